@@ -273,3 +273,40 @@ def calls_reach(n1: str, q: str) -> bool:
     r = _report()
     root = _root(tree, r)
     return not bool(S.prevent_function_call(q, root=root, report=r))
+
+
+OTHER_CODE = "while q:\n    q = q - 1\nr = 1 <= 2\n"
+
+
+def default_root(s0: bool, s1: bool, s2: bool, k0: bool, k1: bool, k2: bool, k3: bool, step0: bool, step1: bool) -> bool:
+    """
+    History on ONE report: a default check on the submission, then (optionally) a helper parses OTHER code through
+    student_code= (parse_program / find_matches on a reference solution), then ensure_ast / prevent_ast / find_operation
+    WITHOUT root= : they still describe the submission, not the other code.
+
+    pre: True
+    post: _
+    """
+    if tick():
+        return True
+    from pedal.cait.cait_api import parse_program, find_matches
+    k = bits(k0, k1, k2, k3)
+    if k >= len(NODE_NAMES):
+        return True
+    code = STMTS[bits(s0, s1, s2)] + "\nt = a <= b\n"
+    r = Report()
+    contextualize_report(code, report=r)
+    name = NODE_NAMES[k]
+    tree = ast.parse(code)
+    count = sum(1 for n in ast.walk(tree) if type(n).__name__ == name)
+    first = S.prevent_ast(name, report=r)
+    if bool(first) != (count > 0):
+        return False
+    if step0:
+        parse_program(OTHER_CODE, report=r)
+    if step1:
+        find_matches("___ = ___", OTHER_CODE, report=r)
+    e = S.ensure_ast(name, report=r)
+    p = S.prevent_ast(name, report=r)
+    ops = find_operation("<=", report=r)
+    return bool(e) == (count < 1) and bool(p) == (count > 0) and len(ops) == 1
